@@ -78,6 +78,7 @@ func VfC15_JoinIntent() {
 
 type vfOverride struct {
 	use bool
+	has [4]bool // member i has an override of its own; others get the default passed in
 	d   [4]time.Duration
 }
 
@@ -86,7 +87,7 @@ func (o *vfOverride) ReconnectTimeout(m *Member, timeout time.Duration) time.Dur
 		return timeout
 	}
 	for i := range vfNames {
-		if m.Name == vfNames[i] {
+		if m.Name == vfNames[i] && o.has[i] {
 			return o.d[i]
 		}
 	}
@@ -103,6 +104,7 @@ func VfC15_Reap() {
 	s, all := vfC15Pre()
 	ov := &vfOverride{use: vfBool("useOverride")}
 	for i := 0; i < 3; i++ {
+		ov.has[i] = vfBool("hasov")
 		ov.d[i] = time.Duration(vfI64("ov"))
 		vfAssume(ov.d[i] >= 0)
 		vfAssume(ov.d[i] < 1<<61)
@@ -124,7 +126,7 @@ func VfC15_Reap() {
 	for i, m := range all {
 		if m != nil && vfInList(pre, m) == 1 {
 			tmo := timeout
-			if ov.use {
+			if ov.use && ov.has[i] {
 				tmo = ov.d[i]
 			}
 			expired[i] = now.Sub(m.leaveTime) > tmo
